@@ -69,9 +69,17 @@ pub fn c06(args: &[String]) -> i32 {
     }
     for case in 0..n {
         let prof = if case % 4 == 0 { Profile::Full } else { Profile::Tame };
-        let rule = g.rule(prof);
-        let Some(w) = parse(&if case % 3 == 0 { g.small_word() } else { g.word() }) else { continue };
+        let mut rule = g.rule(prof);
+        let Some(mut w) = parse(&if case % 3 == 0 { g.small_word() } else { g.word() }) else { continue };
+        // a syllable variable needs a repeated syllable to match: double the first one now and then
+        if case % 7 == 3 && g.rng.chance(1, 2) && !w.sylls.is_empty() { let s0 = w.sylls[0].clone(); w.sylls.insert(0, s0); }
         let lit = absent_literal(&w);
+        // focused inputs: syllables inside sets, syllable and segment variables bound and used in the input, boundaries in sets
+        if case % 7 == 3 {
+            let sgm = g.pick_cv(); let o = ["*", "e", "&", "[+voice]"][g.rng.below(4)];
+            rule = match g.rng.below(8) { 0 => format!("{{%, {sgm}}} > {o}"), 1 => format!("{{%}} {sgm} > {o}"), 2 => format!("%=1 1 > {o}"), 3 => format!("{sgm} %=1 1 > {o}"),
+                4 => format!("C=1 1 > {o}"), 5 => format!("{{$, {sgm}}} V > {o}"), 6 => format!("% {sgm} > {o}"), _ => format!("V=1 C 1 > {o}") };
+        }
         let Some((inp, arrow, rest)) = split_arrow(&rule) else { continue };
         let inp_t = inp.trim();
         let planted = if inp_t == "*" || inp_t == "∅" {
@@ -111,7 +119,7 @@ pub fn c06(args: &[String]) -> i32 {
                 if *r != w {
                     let labels = labels_c06(&planted);
                     // the family (call site) that explains the failure, if any; the other labels only describe the rule
-                    let primary = ["input-ends-with-$", "insertion-before-ends-with-$", "insertion-after-starts-with-boundary", "input-ellipsis"].iter().find(|p| labels.contains(p));
+                    let primary = ["input-ends-with-$", "insertion-before-ends-with-$", "insertion-after-starts-with-boundary", "input-ellipsis", "input-set-with-syllable", "input-variable-reference"].iter().find(|p| labels.contains(p));
                     let kind = match primary { Some(p) => format!("c06-changed:{p}"), None => if labels.is_empty() { "c06-changed".to_string() } else { format!("c06-changed:{}", labels.join("+")) } };
                     println!("FINDING {kind} rule={planted:?} word={} got={}", word_flat(&w, false), word_flat(r, false));
                 }
@@ -144,7 +152,12 @@ pub fn c07(args: &[String]) -> i32 {
     let mut g = Gen::new(seed ^ 0xC07);
     let mut st = Stats::new();
     let n = if thorough { 300000 } else { 25000 };
-    let rich_word = |g: &mut Gen| -> Option<WordS> { parse(&if g.rng.chance(1, 3) { g.small_word() } else { g.word() }) };
+    // words with long and overlong segments in a third of the cases: alphas over length are captured from them
+    let rich_word = |g: &mut Gen| -> Option<WordS> {
+        let mut w = parse(&if g.rng.chance(1, 3) { g.small_word() } else { g.word() })?;
+        if g.rng.chance(1, 3) { let si = g.rng.below(w.sylls.len()); if !w.sylls[si].segs.is_empty() { let gi = g.rng.below(w.sylls[si].segs.len()); let s = w.sylls[si].segs[gi]; for _ in 0..1 + g.rng.below(2) { w.sylls[si].segs.insert(gi, s); } } }
+        Some(w)
+    };
     // (1) Xi=i ... > i ...
     for case in 0..n {
         let k = 1 + g.rng.below(3);
@@ -182,7 +195,9 @@ pub fn c07(args: &[String]) -> i32 {
     for s in ["long", "overlong", "stress", "secstress"] { names.push((s.to_string(), "supra")); }
     for _ in 0..(if thorough { 40 } else { 6 }) {
         for (name, cls) in &names {
-            for el in ["", "C", "V"] {
+            // suprasegmental alphas are captured from syllables and runs, of which a word has few: more words for them
+            for el in if *cls == "supra" { &["", "C", "V", "", "C", "V", "", "V", "V", "[]:[]", "V", ""][..] } else { &["", "C", "V"][..] } {
+                let el = if *el == "[]:[]" { "" } else { *el };
                 let rule = if el.is_empty() { format!("[α{name}] > [α{name}]") } else { format!("{el}:[α{name}] > [α{name}]") };
                 let Some(w) = rich_word(&mut g) else { continue };
                 st.inc("c07.cases"); st.inc("c07.alpha_identity");
